@@ -2,7 +2,7 @@
    Directives: ExtrOcamlBasic (bool, option, list, prod, unit, sumbool, sumor),
    ExtrOcamlString (ascii -> char, string -> char list).  No Extract Constant of our own. *)
 From Coq Require Import Extraction ExtrOcamlBasic ExtrOcamlString.
-From Ucg Require Import base.Bytes data.Val prec.Climb env.Collector env.Out data.Json data.MapJson data.B64 path.Path sem.Ast sem.Sem sem.FloatInst shell.Shell.
+From Ucg Require Import base.Bytes data.Val prec.Climb env.Collector env.Out data.Json data.MapJson data.B64 path.Path sem.Ast sem.Sem sem.FloatInst shell.Shell lex.Lex_Types lex.Vocab lex.Lex.
 From UcgGen Require Import PrecTable DocPrecTable.
 
 Extraction Language OCaml.
@@ -28,4 +28,4 @@ Definition sem_float_bits (x : F b64_ops) : Z := f_to_bits b64_ops x.
 Extraction "model.ml" climb_code spec_doc dec_of_Z
   test_run exit_code file_spec out_run fs_get with_extension
   json_output json_input json_parse json_print to_json from_json b64_encode b64_decode normalize resolve
-  sem_run sem_float_bits env_emit flags_emit exec_emit sh_words sh_env sh_script esc_sq esc_dq.
+  sem_run sem_float_bits env_emit flags_emit exec_emit sh_words sh_env sh_script esc_sq esc_dq lex lex_all.
